@@ -904,6 +904,15 @@ func (cx *Ctx) checkTimeWindow(r *Report, rule string) {
 		r.Fail(rule, "checkIfRequestTimeIsStillValid", "", "anchor closure not found")
 		return
 	}
+	closure := fn
+	// the check itself may be a plain function of values the closure calls with the getters' results and the
+	// current time (`return checkRequestTime(time.Now().UTC(), notBefore(), notOnOrAfter(), layout)`): its
+	// parameters then stand for those values
+	paramRole := map[ssa.Value]string{}
+	worker, workerCall := timeCheckWorker(fn)
+	if worker != nil {
+		fn = worker
+	}
 	aps, ok := fx.atomPaths(fn, 8192)
 	if !ok {
 		r.Undecided(rule, "checkIfRequestTimeIsStillValid", w.FnPos(fn), "too many paths")
@@ -920,8 +929,8 @@ func (cx *Ctx) checkTimeWindow(r *Report, rule string) {
 				p, _ = st[0].(*ssa.Parameter)
 			}
 		}
-		if p != nil && fn.Parent() != nil {
-			for i, q := range fn.Parent().Params {
+		if p != nil && closure.Parent() != nil {
+			for i, q := range closure.Parent().Params {
 				if q == p {
 					switch i {
 					case 0:
@@ -936,6 +945,9 @@ func (cx *Ctx) checkTimeWindow(r *Report, rule string) {
 	}
 	var fvOf func(v ssa.Value) string
 	fvOf = func(v ssa.Value) string { // role of the getter free variable a call invokes
+		if role, isP := paramRole[v]; isP && role != "now" {
+			return role
+		}
 		c, ok := v.(*ssa.Call)
 		if !ok {
 			// a local that holds the getter's result: `nb := notBefore()`
@@ -960,6 +972,9 @@ func (cx *Ctx) checkTimeWindow(r *Report, rule string) {
 	}
 	isNow := func(v ssa.Value) bool {
 		for i := 0; i < 4; i++ {
+			if paramRole[v] == "now" {
+				return true
+			}
 			c, ok := v.(*ssa.Call)
 			if !ok {
 				return false
@@ -974,6 +989,19 @@ func (cx *Ctx) checkTimeWindow(r *Report, rule string) {
 			}
 		}
 		return false
+	}
+	if worker != nil {
+		for i, a := range workerCall.Call.Args {
+			if i >= len(worker.Params) {
+				break
+			}
+			switch {
+			case isNow(a):
+				paramRole[worker.Params[i]] = "now"
+			case fvOf(a) != "":
+				paramRole[worker.Params[i]] = fvOf(a)
+			}
+		}
 	}
 	parsedOf := func(v ssa.Value) string { // "notBefore" / "notOnOrAfter" if v is time.Parse(layout, <getter>())#0
 		e, ok := v.(*ssa.Extract)
@@ -1340,4 +1368,22 @@ func (cx *Ctx) encodingTable(fn *ssa.Function, encParam string) *encTable {
 		}
 	}
 	return t
+}
+
+// timeCheckWorker: the closure fn only hands on the verdict of one module function of its package, called with values
+// it computes on the spot: that function and the call. nil otherwise.
+func timeCheckWorker(fn *ssa.Function) (*ssa.Function, *ssa.Call) {
+	rets := returnsOf(fn)
+	if len(rets) != 1 || len(rets[0].Results) != 1 || len(fn.Blocks) != 1 {
+		return nil, nil
+	}
+	c, ok := rets[0].Results[0].(*ssa.Call)
+	if !ok || c.Call.IsInvoke() {
+		return nil, nil
+	}
+	g := calleeOf(c)
+	if g == nil || g.Blocks == nil || g.Pkg != fn.Pkg || g.Parent() != nil {
+		return nil, nil
+	}
+	return g, c
 }
